@@ -366,6 +366,9 @@ def configs():
         ("hist_to_csv_false_dup", "disabled", lambda k: (hist_num(k), {"output": {"to_csv": False, "duplicate_last_bin": True}})),
         ("foreign_nodup", "lookalike", lambda k: (Foreign(k), {"output": {"duplicate_last_bin": False}})),
         ("foreign_dup", "lookalike", lambda k: (Foreign(k), {"output": {"duplicate_last_bin": True}})),
+        # a histogram ToCSV can not convert (3 dimensions: passed on with a warning) that carries output options
+        ("hist3d_nodup", "lookalike", lambda k: (histogram([[0, 1], [0, 1], [0, 1]], [[[k]]]), {"output": {"duplicate_last_bin": False}})),
+        ("hist3d_dup", "lookalike", lambda k: (histogram([[0, 1], [0, 1], [0, 1]], [[[k]]]), {"output": {"duplicate_last_bin": True}})),
     ]
     cs.append(Config("ToCSV()", "ToCSV", lambda: ToCSV(), tocsv_sel, tocsv_unsel))
     cs.append(Config("ToCSV(sep,header,row_end,nodup)", "ToCSV",
